@@ -120,9 +120,10 @@ Definition fuzz_mp := mkCtx Fuzzing false true.
 Definition st_pos := mkCtx Stateful false false.
 Definition st_neg := mkCtx Stateful true false.
 
-(* the region in which the current source is reproducible: positive-mode fuzzing and stateful, no multipart body *)
+(* the region in which the current source is reproducible: fuzzing and stateful, positive and negative mode, no multipart body
+   (negative mode joined it with the change_type fix, a5c169d7) *)
 Definition seeded_region_today (x : ctx) : bool :=
-  match x_phase x with Fuzzing | Stateful => negb (x_negative x) && negb (x_multipart x) | _ => false end.
+  match x_phase x with Fuzzing | Stateful => negb (x_multipart x) | _ => false end.
 
 Lemma seeded_region_today_ok : forall x, seeded_region_today x = true -> ctx_seeded gen_sites x = true.
 Proof.
@@ -134,8 +135,8 @@ Lemma fuzzing_stateful_deterministic : forall gen ws seed a a',
 Proof. exact (region_deterministic seeded_region_today gen_sites seeded_region_today_ok). Qed.
 
 Example seeded_region_today_nonvacuous :
-  works_in seeded_region_today [mkWork 0 fuzz_pos 0 4; mkWork 1 fuzz_pos 0 4; mkWork 0 st_pos 0 9; mkWork 0 st_pos 1 9] = true
-  /\ length (run wit_gen (gen_sites, [mkWork 0 fuzz_pos 0 4; mkWork 0 st_pos 1 9]) 5 wit_a0) = 13%nat.
+  works_in seeded_region_today [mkWork 0 fuzz_pos 0 4; mkWork 1 fuzz_neg 0 4; mkWork 0 st_pos 0 9; mkWork 0 st_neg 1 9] = true
+  /\ length (run wit_gen (gen_sites, [mkWork 0 fuzz_neg 0 4; mkWork 0 st_pos 1 9]) 5 wit_a0) = 13%nat.
 Proof. split; vm_compute; reflexivity. Qed.
 
 (* the generated plan for any region in which it is seeded (whatever the source becomes) *)
@@ -162,21 +163,42 @@ Lemma multipart_refuted :
   /\ exists gen seed a a', run gen (gen_sites, [mkWork 0 fuzz_mp 0 1]) seed a <> run gen (gen_sites, [mkWork 0 fuzz_mp 0 1]) seed a'.
 Proof. split; [vm_compute; reflexivity|]. apply refuted_in. vm_compute. reflexivity. Qed.
 
-Lemma hash_order_refuted :
-  ambient_kind_active HashOrder gen_sites fuzz_neg = true /\ ambient_kind_active HashOrder gen_sites st_neg = true
-  /\ ambient_kind_active HashOrder gen_sites ex_pos = true
-  /\ exists gen seed a a', run gen (gen_sites, [mkWork 0 fuzz_neg 0 1]) seed a <> run gen (gen_sites, [mkWork 0 fuzz_neg 0 1]) seed a'.
-Proof. repeat (split; [vm_compute; reflexivity|]). apply refuted_in. vm_compute. reflexivity. Qed.
+(* HashOrder.  Until a5c169d7 / 353ffa52 the source had three places where the iteration order of a set of strings was observable
+   (findings F4, F5, now fixed): the plan of that source is kept as a labelled sentinel. *)
+Definition legacy_hash_order_sites : list site :=
+  [ mkSite 10 (Ambient HashOrder) [Examples] false false true;          (* examples.py extract_top_level: for f in {example, x-example}, parameters *)
+    mkSite 11 (Ambient HashOrder) [Examples] false false true;          (* the same for request bodies *)
+    mkSite 12 (Ambient HashOrder) [Fuzzing; Stateful] true false true   (* mutations.py change_type: is_enabled draws while iterating a set *)
+  ].
+Definition sentinel_sites_before_hash_fixes : list site := gen_sites ++ legacy_hash_order_sites.
+
+Lemma hash_order_fixed : forall x, ambient_kind_active HashOrder gen_sites x = false.
+Proof. intros [p n m]. destruct p, n, m; vm_compute; reflexivity. Qed.
+
+Lemma hash_order_sentinel_refuted :
+  ambient_kind_active HashOrder sentinel_sites_before_hash_fixes fuzz_neg = true
+  /\ ambient_kind_active HashOrder sentinel_sites_before_hash_fixes st_neg = true
+  /\ ambient_kind_active HashOrder sentinel_sites_before_hash_fixes ex_pos = true
+  /\ exists gen seed a a', run gen (sentinel_sites_before_hash_fixes, [mkWork 0 fuzz_neg 0 1]) seed a
+                          <> run gen (sentinel_sites_before_hash_fixes, [mkWork 0 fuzz_neg 0 1]) seed a'.
+Proof.
+  repeat (split; [vm_compute; reflexivity|]).
+  exists wit_gen, 0, wit_a0, wit_a1. apply ambient_diverges. vm_compute. reflexivity.
+Qed.
+
+Lemma sentinel_differs : ambient_table sentinel_sites_before_hash_fixes <> ambient_table gen_sites
+  /\ ctx_seeded sentinel_sites_before_hash_fixes fuzz_neg = false /\ ctx_seeded gen_sites fuzz_neg = true.
+Proof. split; [vm_compute; discriminate|]. split; vm_compute; reflexivity. Qed.
 
 (* the complete table of today: for each of the 16 contexts (phase x negative x multipart, in the order of all_ctxs) the ids of the
    ambient sites a divergence there can be attributed to.  A new ambient site in the source (or a removed one) changes Gen_C13.v
    and breaks this lemma: the findings have to be re-read. *)
 Lemma current_ambient_table :
   ambient_table gen_sites =
-  [ [3; 4; 10; 11]; [3; 4; 10; 11]; [3; 4; 7; 10; 11]; [3; 4; 7; 10; 11];
+  [ [3; 4]; [3; 4]; [3; 4; 7]; [3; 4; 7];
     [5]; [5]; [5; 7]; [5; 7];
-    []; [12]; [7]; [7; 12];
-    []; [12]; [7]; [7; 12] ].
+    []; []; [7]; [7];
+    []; []; [7]; [7] ].
 Proof. vm_compute. reflexivity. Qed.
 
 (* the hypothesis of the workers theorem, as far as the translator can see it in the source: worker_task keeps nothing across
